@@ -27,11 +27,9 @@ Inductive slot := SHits | SHolds | SOther.
 Inductive lclass := CHit | CHold | CNone.      (* isinstance(_, HitList) / isinstance(_, HoldList) / neither *)
 
 (* one entry of Map.objs, in dict order.
-   tl_listy: the list class declares a field whose default is a Python list, so that
-             `df[col] = default` inside from_dict raises ValueError on a non-empty frame;
    tl_notes: the (column, offset, length) view of the rows (empty for non-note lists);
    tl_ids:   the full rows interned as numbers by the harness (compared only for equality). *)
-Record tlist := mkTL { tl_slot : slot; tl_class : lclass; tl_listy : bool; tl_notes : list note; tl_ids : list Z }.
+Record tlist := mkTL { tl_slot : slot; tl_class : lclass; tl_notes : list note; tl_ids : list Z }.
 Definition chart := list tlist.
 
 Definition slot_eqb (a b : slot) : bool :=
@@ -80,18 +78,20 @@ Fixpoint ln_column (gap thr : Z) (g : list note) : list note :=
 
 Definition is_hit (n : note) : bool := match n_len n with None => true | Some _ => false end.
 
-(* ---- cls.from_dict(rows): empty -> empty list; otherwise missing columns are filled with their defaults,
-   which raises when a default is a list *)
-Definition rebuild (listy : bool) (rows : list note) : option (list note) :=
+(* ---- cls.from_dict(rows): no rows -> the empty list of the class; otherwise a frame of exactly these rows, the
+   columns that were not given (game-specific fields) filled from the class defaults (a list-valued default gives
+   every row a fresh list).  It raises only on a column name the class does not declare; offset/column/length are
+   declared by every HitList/HoldList class, so here it always succeeds. *)
+Definition rebuild (rows : list note) : option (list note) :=
   match rows with
   | [] => Some []
-  | _ => if listy then None else Some rows
+  | _ => Some rows
   end.
 
 Definition find_slot (s : slot) (m : chart) : option tlist := find (fun l => slot_eqb (tl_slot l) s) m.
 
 Definition set_rows (l : tlist) (rows : list note) : tlist :=
-  mkTL (tl_slot l) (tl_class l) (tl_listy l) rows [].          (* game-specific fields are re-created from defaults *)
+  mkTL (tl_slot l) (tl_class l) rows [].          (* game-specific fields are re-created from defaults *)
 
 Definition ln_rows (gap thr : Z) (s : list note) : list note :=
   flat_map (fun c => ln_column gap thr (group c s)) (columns s).
@@ -100,11 +100,11 @@ Definition ln_rows (gap thr : Z) (s : list note) : list note :=
 Definition full_ln_sorted (m : chart) (s : list note) (gap thr : Z) : option chart :=
   let rows := ln_rows gap thr s in
   match find_slot SHits m, find_slot SHolds m with
-  | Some lh, Some lo =>
-      match rebuild (tl_listy lh) (filter is_hit rows) with
+  | Some _, Some _ =>                                             (* type(m.hits), type(m.holds) *)
+      match rebuild (filter is_hit rows) with
       | None => None
       | Some h =>
-          match rebuild (tl_listy lo) (filter (fun n => negb (is_hit n)) rows) with
+          match rebuild (filter (fun n => negb (is_hit n)) rows) with
           | None => None
           | Some o =>
               Some (map (fun l => match tl_slot l with
